@@ -48,7 +48,7 @@ impl Plan for C17Plan {
              {{0..8,16,32,64}} x 14 argument tuples (valid search; entropy failure at request 0 / 1; malformed and out-of-range --vanity-hd-path; account indices \
              2^31, 2^32-1, 2^32, 2^64-1, 2^64; upper-case prefix; 13 words) and then seeded `new` scenarios (junk numbers, paths, prefixes, lengths, languages, \
              0..4 planned entropy responses incl. failures, scheduler policy random/sticky/PCT-like); then 56 enumerated legacy transactions with the chain id at the EIP-155 v-overflow limit (2^256-37)/2 -3..+3, decimal and hex, through `hash transaction --signature` with both parities and `sign transaction`; invariant: no task panics, no deadlock before exit, exit within \
-             384+96*workers further entropy requests once every entropy response matches, step budget 4000+400*(plan+workers). (ii) Sampled by the workload, engine E1 (real binary): \
+             384+32*workers further entropy requests once every entropy response matches, step budget 4000+400*(plan+workers). (ii) Sampled by the workload, engine E1 (real binary): \
              seeded boundary-biased and mutated-valid inputs for mnemonic phrases (0..40 words, valid/invalid checksum), paths and indices around 2^31/2^32/2^64 \
              (flags and environment), signature text (scalars 0,1,n-1,n,2^256-1; v 0,26..29,255; lengths 0..140), digests, transaction JSON (every numeric field at \
              0,2^64,2^255,2^256-1,2^256,-1,1.5,1e80,\"\",\"0x\"; chain ids to 2^256-1; with and without --signature), typed-data JSON (all widths, up to 64 array \
